@@ -2,6 +2,12 @@
 from props_common import mapper_prop
 
 PROPS = {
+    "C01": mapper_prop(["HELD"], ["C01"],
+                       explanation="C01_no_stuck_keys is proved by the inductive invariant Inv (MapperInv.v) for every accepted layout and every history incl. ill-formed events and release-all; correspondence observes the held set after every step (class HELD); the extracted checker K_C01 runs on the real outputs"),
+    "C02": mapper_prop(["HELD"], ["C02"],
+                       explanation="four theorems (justified, silenced key, release never presses, trigger consumed) from Inv; 'in effect' is the specification state's active list; extracted checkers K_C02_* run on the real outputs"),
     "C09": mapper_prop(["REPEAT"], ["C09"],
                        explanation="C09_repeat_exact is proved for every layout, state and event; the REPEAT observation of the real mapper is compared with the model on every explored transition"),
+    "C19": mapper_prop(["EVENTS"], ["C19"],
+                       explanation="C19_no_redundant and C19_bookkeeping_matches_device are proved from Inv + per-function trace lemmas (tr_ok) for every accepted layout and every history incl. release-all batches; the extracted checker K_C19 runs on the real outputs"),
 }
